@@ -646,10 +646,14 @@ pub struct LazyObject(OwnedLazyValue);
 impl std::ops::Deref for LazyObject {
     type Target = Vec<(FastStr, OwnedLazyValue)>;
     fn deref(&self) -> &Self::Target {
-        if let LazyPacked::Parsed(Parsed::LazyObject(obj)) = &self.0 .0 {
-            obj
-        } else {
-            unreachable!("must be a lazy object");
+        match &self.0 .0 {
+            LazyPacked::Parsed(Parsed::LazyObject(obj)) => obj,
+            // `as_object()` on a raw value parses it into the cache, not in place
+            LazyPacked::Raw(raw) => match raw.load() {
+                Ok(Parsed::LazyObject(obj)) => obj,
+                _ => unreachable!("must be a lazy object"),
+            },
+            _ => unreachable!("must be a lazy object"),
         }
     }
 }
@@ -733,10 +737,14 @@ impl std::ops::DerefMut for LazyArray {
 impl std::ops::Deref for LazyArray {
     type Target = Vec<OwnedLazyValue>;
     fn deref(&self) -> &Self::Target {
-        if let LazyPacked::Parsed(Parsed::LazyArray(obj)) = &self.0 .0 {
-            obj
-        } else {
-            unreachable!("must be a lazy array");
+        match &self.0 .0 {
+            LazyPacked::Parsed(Parsed::LazyArray(arr)) => arr,
+            // `as_array()` on a raw value parses it into the cache, not in place
+            LazyPacked::Raw(raw) => match raw.load() {
+                Ok(Parsed::LazyArray(arr)) => arr,
+                _ => unreachable!("must be a lazy array"),
+            },
+            _ => unreachable!("must be a lazy array"),
         }
     }
 }
